@@ -14,22 +14,38 @@ package main
 // Kind() known not to be Invalid) holds for the receiver's term.
 
 import (
+	"time"
+
 	"golang.org/x/tools/go/ssa"
 )
+
+// one exploration per function answers for all its accessor calls; it is kept
+// small (few paths, shallow inlining, a few seconds): a function too large for
+// that stays with the dominance answer (not guarded = reported, as before).
+var pxGuardedCache = map[*ssa.Function]map[*ssa.Call]bool{}
 
 func (w *World) pxGuardedValid(fn *ssa.Function, call *ssa.Call) bool {
 	if fn == nil || fn.Blocks == nil || len(call.Call.Args) == 0 {
 		return false
 	}
-	reached, bad := 0, false
+	if res, done := pxGuardedCache[fn]; done {
+		return res[call]
+	}
+	reached, bad := map[*ssa.Call]int{}, map[*ssa.Call]bool{}
 	var px *PX
 	px = w.newPX(pxHooks{
+		inline: func(fr *pxFrame, callee *ssa.Function) bool { return fr.depth < 2 },
 		onInstr: func(fr *pxFrame, in ssa.Instruction, st *pxState) bool {
-			if fr.parent != nil || in != ssa.Instruction(call) {
+			c, isC := in.(*ssa.Call)
+			if !isC || fr.parent != nil || len(c.Call.Args) == 0 {
 				return true
 			}
-			reached++
-			rt := px.term(call.Call.Args[0], fr, st)
+			sc := c.Call.StaticCallee()
+			if sc == nil || sc.Signature.Recv() == nil || typeStr(sc.Signature.Recv().Type()) != "reflect.Value" || !zeroValuePanics[sc.Name()] {
+				return true
+			}
+			reached[c]++
+			rt := px.term(c.Call.Args[0], fr, st)
 			ok := false
 			for _, name := range []string{"(reflect.Value).IsValid", "(reflect.Value).CanAddr", "(reflect.Value).CanSet", "(reflect.Value).CanInterface"} {
 				if s, has := st.env["pure:"+name+"("+rt.key+")"]; has && s.Equal(single(1)) {
@@ -40,7 +56,7 @@ func (w *World) pxGuardedValid(fn *ssa.Function, call *ssa.Call) bool {
 				ok = true
 			}
 			if !ok {
-				bad = true
+				bad[c] = true
 			}
 			return true
 		},
@@ -51,6 +67,17 @@ func (w *World) pxGuardedValid(fn *ssa.Function, call *ssa.Call) bool {
 	}
 	px.extraPure["(reflect.Value).CanSet"] = true
 	px.extraPure["(reflect.Value).CanInterface"] = true
+	px.maxPaths, px.maxSteps = 300, 40000
+	// (a budget of ~5 s of the explorer's wall clock)
+	px.started = time.Now().Add(-(pxWallBudget - 5*time.Second))
 	px.Run(fn, Env{})
-	return !px.Truncated && reached > 0 && !bad
+	res := map[*ssa.Call]bool{}
+	pxGuardedCache[fn] = res
+	if px.Truncated {
+		return false
+	}
+	for c, n := range reached {
+		res[c] = n > 0 && !bad[c]
+	}
+	return res[call]
 }
